@@ -28,6 +28,9 @@ def isOk {α} : Outcome α → Bool
 def isPanic {α} : Outcome α → Bool
   | panic _ => true
   | _ => false
+def isErr {α} : Outcome α → Bool
+  | err _ => true
+  | _ => false
 end Outcome
 
 /-! ### hex -/
